@@ -170,6 +170,19 @@ PROPS = {
         level_note=('Trusted: the process-level observations (exit status, signals, /proc task states, stderr). The harness build has overflow checks and debug assertions ON, the CLI is the plain release build; '
                     'deadlock verdicts use logical progress (CPU time of all threads), a 120 s wall watchdog yields inconclusive.'),
     ),
+    'C14': dict(
+        engines=[('vmon', 'c14'), ('py', 'c14_cli')],
+        cli=True,
+        technique='runtime monitoring: independent line-model oracle vs CombinedScan (in process) and vs `ast-grep scan --json` in generated projects',
+        rule=('for 13 languages (comment syntaxes //, #, --, /* */, <!-- -->) files of 3-11 lines are generated: lines of 1-3 single-line statements each triggering one of four rules r1..r4, '
+              'own-line directives, trailing directives, both, stacked and adjacent directives, at file start/end; id lists: none, one, several, unknown ids. The line model says: finding (r, L) is '
+              'suppressed iff an own-line directive on L-1 or a trailing directive on L lists r or nothing; a directive is unused iff it suppressed nothing. Compared with CombinedScan::scan (matches and '
+              'unused-suppression entries, per-line multiplicities) and, for 130 (quick) / 1200 (thorough) of the same files, with the records of `ast-grep scan --json=stream` in a project with rule files. '
+              'evaluations = files. Non-trivial = distinct files with >= 2 directives, >= 2 findings and at least one id list.'),
+        floor={'quick': 3000, 'thorough': 100000},
+        level_text='Thousands of generated files per quick run, every finding and every directive judged by the line model; held on the placements executed.',
+        level_note='Trusted: the line model (harness/src/mon/c14.rs::model, written from the statement), the four rules of each language firing exactly once per statement (asserted: the rules must load; unsuppressed findings are compared with multiplicity).',
+    ),
 }
 
 NOT_APPLICABLE = {}
